@@ -2209,7 +2209,9 @@ class Translator:
         for rc in rcalls:
             if rc.keywords or len(rc.args) != len(params):
                 raise Unsupported("recursive call of %s with an unexpected argument list" % name)
-        changed = set(_assigned(body, None, self.procs))
+        direct = set(_assigned(body))
+        changed = {n_ for n_ in _assigned(body, None, self.procs)
+                   if n_ in direct or n_ not in params or is_object(args[params.index(n_)].ty)}
         invariant = [all(isinstance(rc.args[i], ast.Name) and rc.args[i].id == params[i] for rc in rcalls)
                      and params[i] not in changed for i in range(len(params))]
         # constant invariant arguments are folded into the body (resolute=True / False)
@@ -2393,7 +2395,10 @@ class Translator:
         if is_for:
             tnames = {n.id for n in ast.walk(s.target) if isinstance(n, ast.Name)}
         rec = (self.rec_active["name"], [i for i, _, _ in self.rec_active["state"]]) if self.rec_active else None
-        cands = [n for n in _assigned(s.body, rec, self.procs) if n in env and n not in tnames]
+        direct = _assigned(s.body)
+        # a call of a local procedure / of the recursive function can only change the OBJECTS it is handed
+        cands = [n for n in _assigned(s.body, rec, self.procs) if n in env and n not in tnames
+                 and (n in direct or is_object(env[n].ty))]
         oids = {env[n].oid for n in cands if env[n].oid is not None}
         for n, v in env.items():
             if not n.startswith("$") and n not in cands and n not in tnames and v.oid in oids:
